@@ -33,17 +33,22 @@ type Replay struct {
 	Bounds   map[string]int `json:"bounds"`
 	Inputs   []Input        `json:"inputs"`
 	Observed []string       `json:"observations"`
+	// Repeat > 1: the counterexample depends on a goroutine schedule found by the engine
+	// (preemption at lock acquisitions); natively the run is repeated up to Repeat times
+	// (or 25 s) under the real scheduler until the outcome is not "ok".
+	Repeat int `json:"repeat,omitempty"`
 }
 
 // T carries the replay state of one harness run.
 type T struct {
-	r        *Replay
-	pos      int
-	Obs      []string
-	Failed   []string // labels of failed assertions
-	Reached  []string
-	Desync   string
-	baseGor  int
+	r       *Replay
+	pos     int
+	Obs     []string
+	Failed  []string // labels of failed assertions
+	Reached []string
+	Desync  string
+	baseGor int
+	fast    bool
 }
 
 // assertFailed is thrown (panic) by Assert so that the harness stops at the first
@@ -256,6 +261,26 @@ func render(v interface{}) string {
 // many goroutines started since the harness began are still alive.
 func (t *T) Goroutines() int {
 	n := 0
+	if t.fast {
+		// stress replay of a schedule-dependent counterexample: settle quickly (the count
+		// is stable for a few scheduler rounds)
+		last, stable := -1, 0
+		for i := 0; i < 400 && stable < 8; i++ {
+			runtime.Gosched()
+			n = runtime.NumGoroutine() - t.baseGor
+			if n <= 0 {
+				return 0
+			}
+			if n == last {
+				stable++
+			} else {
+				stable = 0
+			}
+			last = n
+			time.Sleep(50 * time.Microsecond)
+		}
+		return n
+	}
 	for i := 0; i < 200; i++ {
 		runtime.Gosched()
 		n = runtime.NumGoroutine() - t.baseGor
@@ -269,15 +294,30 @@ func (t *T) Goroutines() int {
 
 // Outcome of a native run.
 type Outcome struct {
-	File     string   `json:"file"`
-	Outcome  string   `json:"outcome"` // ok | assert:<label> | panic:<msg> | desync:<msg> | timeout
-	Obs      []string `json:"observations"`
-	Reached  []string `json:"reached"`
+	File    string   `json:"file"`
+	Outcome string   `json:"outcome"` // ok | assert:<label> | panic:<msg> | desync:<msg> | timeout
+	Obs     []string `json:"observations"`
+	Reached []string `json:"reached"`
 }
 
 // RunNative runs harness f on the replay and classifies what happened.
 func RunNative(r *Replay, f func(*T)) (out Outcome) {
+	if r.Repeat > 1 {
+		deadline := time.Now().Add(25 * time.Second)
+		for i := 0; i < r.Repeat && time.Now().Before(deadline); i++ {
+			out = runNativeOnce(r, f)
+			if out.Outcome != "ok" {
+				return out
+			}
+		}
+		return out
+	}
+	return runNativeOnce(r, f)
+}
+
+func runNativeOnce(r *Replay, f func(*T)) (out Outcome) {
 	t := NewReplay(r)
+	t.fast = r.Repeat > 1
 	done := make(chan struct{})
 	go func() {
 		defer close(done)
